@@ -118,7 +118,7 @@ def run(ctx):
 def replay(ctx, rec):
     c = rec["case"]
     if "model" not in c:
-        return True
+        raise core.CannotReplay("no executable case in this replay file")
     m = c["model"]
     e = I.oracle(ctx, [m])[0]
     n0 = len(ctx.violations)
